@@ -13,6 +13,8 @@ POOL = {
     "A1": (["e-", "H", "H"], ["H2", "e-"], (-1.0, -1.0), "GAS_TWOBODY"),  # reactants permuted
     "A2": (["H", "H", "e-"], ["e-", "H2"], (-1.0, -1.0), "GAS_TWOBODY"),  # products permuted
     "A3": (["H", "H", "e-"], ["H2", "e-"], (10.0, 300.0), "GAS_TWOBODY"),  # other window
+    "A6": (["H", "H", "e-"], ["H2", "e-"], (10.0, 1000.0), "GAS_TWOBODY"),  # same lower bound as A3, other upper bound
+    "A7": (["H", "H", "e-"], ["H2", "e-"], (5.0, 300.0), "GAS_TWOBODY"),  # same upper bound as A3, other lower bound
     "A4": (["H", "H", "e-"], ["H2", "e-"], (-1.0, -1.0), "GAS_PHOTON"),  # other type
     "A5": (["H", "e-", "H"], ["H2", "e-"], (-1.0, -1.0), "UNKNOWN"),  # type unknown (wildcard in default mode)
     # same species *sets* as each other, different multiplicities: never equivalent
@@ -33,8 +35,8 @@ POOL.update(
         "S1": (["E", "He+"], ["He"], (-1.0, -1.0), "GAS_TWOBODY"),
     }
 )
-IDS2 = ["E0", "E1", "O0", "O1", "S0", "S1", "A0"]
-IDS = [k for k in POOL if k not in ("E0", "E1", "O0", "O1", "S0", "S1")]
+IDS2 = ["E0", "E1", "O0", "O1", "S0", "S1", "A0", "A3", "A7"]
+IDS = [k for k in POOL if k not in ("E0", "E1", "O0", "O1", "S0", "S1", "A7")]
 MODES = [None, "brief", "minimal", "short"]
 
 
@@ -159,7 +161,7 @@ def run(ctx):
     return {
         "evaluations": judged + skipped,
         "distinct_nontrivial": judged,
-        "rule": f"all lists of length <= {nmax} over a pool of 10 reactions (two bases, a multiplicity-only pair; permuted reactants / products, other window, other type, unknown type) x modes default/brief/minimal/short; O(n^2) pairwise reference; removal round trip and second call",
+        "rule": f"all lists of length <= {nmax} over a pool of 11 reactions (two bases, a multiplicity-only pair; permuted reactants / products, windows differing in both bounds / only the upper / only the lower bound, other type, unknown type) and a second pool of electron/label permutations x modes default/brief/minimal/short; O(n^2) pairwise reference; removal round trip and second call",
         "samples": [list(l) for l in lists[:: max(1, len(lists) // 6)][:6]],
         "lists": len(lists),
         "judged_list_mode_pairs": judged,
